@@ -22,11 +22,17 @@ structure Inv (s : State) : Prop where
   exitPend : ∀ id ∈ s.exitPending, id ∈ s.executed ∨
       (s.phase = .drain ∧ (id ∈ idsOf s.dQ ∨ (s.remain = 100 ∧ id ∈ idsOf (s.nextQ ++ s.inLoopQ))))
 
-/-- the wake-up invariant; needs the flag to be cleared when the eventfd is closed -/
+/-- the wake-up invariant; needs the flag to be cleared when the eventfd is closed.  `counter`: a pending
+wake-up flag means a positive counter unless one of the writes since the last read failed (a failed read
+leaves the counter positive with the flag cleared: one extra pass, harmless). -/
 structure WakeInv (s : State) : Prop where
-  counter : ∀ n, s.efd = some n → n = if s.hasCommit then 1 else 0
+  counter : ∀ n, s.efd = some n → s.hasCommit = true → s.wrLost = false → 0 < n
   closed : s.efd = none → s.hasCommit = false
   armed : s.efd.isSome = true → s.inLoopQ ≠ [] → s.hasCommit = true
+
+/-- the exit timer is only ever found due when it is armed and its deadline has passed -/
+structure TimeInv (s : State) : Prop where
+  due : s.timerDue = true → s.exitTimer = true ∧ s.exitAt ≤ s.clock ∧ s.phase = .pre
 
 /-! ### list lemmas -/
 
